@@ -95,6 +95,30 @@ def check(ctx, case):
 		ids, files = get_sequence_files(pos, lf, 'D')
 		real = '~' if ids is None else ';'.join(f'{i}|{f.path}' for i, f in zip(ids, files))
 		return [f'c08.seqfiles {strs(pos)} {"~" if lines is None else strs(lines)} {hx(real.encode())}'], []
+	if case['kind'] == 'replace':
+		# the SAME path queried twice in one process; in between its content is replaced by another genome of the same byte size,
+		# modification time preserved: the second row is the new genome's row
+		import os
+		ga, gb = w.genomes[gs[0]], w.genomes[gs[1]]
+		sa, sb = b''.join(ga['contigs']), b''.join(gb['contigs'])
+		m = min(len(sa), len(sb))
+		sa, sb = sa[:m], sb[:m]
+		d1, d2, d3 = w.sc.subdir(), w.sc.subdir(), w.sc.subdir()
+		name = case.get('name', 'sample.fasta')
+		P, PA, PB = d1 / name, d2 / name, d3 / name
+		dbutil.write_fasta(PA, [sa]); dbutil.write_fasta(PB, [sb])
+		expA, _ = run_query(w, fmt, ['--no-progress', PA])
+		expB, _ = run_query(w, fmt, ['--no-progress', PB])
+		dbutil.write_fasta(P, [sa])
+		st = os.stat(P)
+		rowsA, _ = run_query(w, fmt, ['--no-progress', P])
+		dbutil.write_fasta(P, [sb])
+		if case.get('keep_mtime', True):
+			os.utime(P, ns=(st.st_atime_ns, st.st_mtime_ns))
+		rowsB, _ = run_query(w, fmt, ['--no-progress', P] + (['-c', case['cores']] if case.get('cores') else []))
+		case['_nt'] = expA[0][1] != expB[0][1]
+		return [f'c08.rows p {strs([str(P)])} {strs([expA[0][1]])} {strs(r[0] for r in rowsA)} {strs(r[1] for r in rowsA)}',
+		        f'c08.rows p {strs([str(P)])} {strs([expB[0][1]])} {strs(r[0] for r in rowsB)} {strs(r[1] for r in rowsB)}'], []
 	db = w.dbdir2 if case.get('db2') else None
 	nsk = case.get('namesake', [False] * len(gs))
 	singles = [single_row(w, gi, fmt, db=db, namesake=ns) for gi, ns in zip(gs, nsk)]
@@ -137,14 +161,27 @@ def check(ctx, case):
 	elif chan == 'list':
 		rels = [(w.genomes[gi]['altrel'] if a else w.genomes[gi]['rel']) for gi, a in zip(gs, use_alt)]
 		lf = w.sc.path('ql.txt')
-		lf.write_text(''.join(r + '\n' + ('\n' if case.get('blank') else '') for r in rels))
+		text = ''.join(r + '\n' + ('\n' if case.get('blank') else '') for r in rels)
+		if case.get('comment') is not None:
+			# a line starting with '#': no such file - the command may refuse the list; if it treats the line as a comment instead,
+			# the rows must still be the genome lines' rows, in order, under their own labels
+			ls = text.split('\n')
+			ls.insert(min(case['comment'], len(ls) - 1), '# genomes of batch 7')
+			text = '\n'.join(ls)
+		lf.write_text(text)
 		extra += ['-l', lf, '--ldir', w.qdir]
 		kind, srcs = 'l', rels
 	else:
 		p, ids = w.sigfile([w.genomes[gi] for gi in gs], ids=[f'sig {i}:{w.genomes[gi]["name"]}' for i, gi in enumerate(gs)])
 		extra += ['-s', p]
 		kind, srcs = 's', ids
-	rows, header = run_query(w, fmt, extra, cwd=(w.decoy_cwd if case.get('decoy_cwd') else None), db=db)
+	try:
+		rows, header = run_query(w, fmt, extra, cwd=(w.decoy_cwd if case.get('decoy_cwd') else None), db=db)
+	except RuntimeError:
+		if chan == 'list' and case.get('comment') is not None:
+			case['_nt'] = False
+			return [], []        # refused: the list names a file that does not exist
+		raise
 	case['_nt'] = len(gs) >= 2 and len(set(singles)) > 1
 	return [f'c08.rows {kind} {strs(srcs)} {strs(singles)} {strs(r[0] for r in rows)} {strs(r[1] for r in rows)}'], []
 
@@ -194,7 +231,11 @@ def run(ctx):
 						nsk[i], nsk[i + 1] = nsk[i + 1], nsk[i]
 			sub({'kind': 'cli', 'g': g, 'fmt': fmt, 'chan': chan, 'alt': alt, 'namesake': nsk, 'db2': rng.random() < 0.4, 'progress': rng.random() < 0.4,
 			     'cores': rng.choice([None, None, 1, 2, 4]) if chan != 'sigs' else rng.choice([None, 2]), 'blank': rng.random() < 0.3,
-			     'decoy_cwd': rng.random() < 0.5}, 'cli')
+			     'decoy_cwd': rng.random() < 0.5, 'comment': (rng.randint(0, len(g)) if (chan == 'list' and rng.random() < 0.3) else None)}, 'cli')
+			if j % 5 == 0:
+				a, b = rng.sample(range(n), 2)
+				sub({'kind': 'replace', 'g': [a, b], 'fmt': rng.choice(['csv', 'json']), 'name': rng.choice(['sample.fasta', 'x.fa', 'genome 1.fna']),
+				     'keep_mtime': rng.random() < 0.8, 'cores': rng.choice([None, 1, 2])}, 'same-path-replaced')
 		for j in range(ctx.q(40, 300)):
 			if not ctx.time_left(0.95):
 				break
